@@ -351,6 +351,28 @@ Proof.
   - apply client_commit. rewrite SR, R. reflexivity.
 Qed.
 
+(* the hypothesis `memory = transacted` of the rollback theorems is forced: MemoryClient::deploy does
+   not commit, so a deployment followed by a reverted script is lost with it (the client returns to
+   its last COMMITTED state, not to the state before the failed script) *)
+Theorem rollback_after_deploy_refuted :
+  exists (s : @mstorage (list N)) (dep w : list N -> list N) (rs : list receipt),
+    ms_memory s = ms_transacted s /\ should_revert rs = true /\
+    ms_memory (client_transact (client_deploy s dep) w true rs) <> ms_memory (client_deploy s dep).
+Proof.
+  exists {| ms_memory := []; ms_transacted := [] |}, (cons 1), (fun x => x), [RcRevert; RcScriptResult SER_Revert 0].
+  repeat split. cbn. discriminate.
+Qed.
+
+(* after any committed point (a successful script) failed scripts do restore the state before them *)
+Theorem rollback_after_commit {T : Type} (s : @mstorage T) (w1 w2 : T -> T) (rs1 rs2 : list receipt) :
+  should_revert rs1 = false -> should_revert rs2 = true ->
+  let s1 := client_transact s w1 true rs1 in
+  ms_memory (client_transact s1 w2 true rs2) = ms_memory s1.
+Proof.
+  intros R1 R2. cbn zeta. apply client_rollback; [|right; exact R2].
+  destruct (client_commit s w1 rs1 R1) as [-> ->]. reflexivity.
+Qed.
+
 (* ------------------------------------------------------------------ examples *)
 Example example_run_success :
   run 17 initial [IBody RK_Log; ICall RK_Call; IBody RK_Transfer; IRet RK_Return; ISilent; IRet RK_ReturnData]
